@@ -397,6 +397,25 @@ func c09CheckData(msg *pb.Data, wire []byte) error {
 			return fmt.Errorf("AppendEncodeUnixFSData into a buffer with %d spare bytes gives %x, EncodeUnixFSData gives %x for {%v}", slack, out, enc, msg)
 		}
 	}
+	// ... and message after message into ONE growing buffer (a framed stream, a block being assembled): each call
+	// appends exactly its encoding behind everything the buffer already holds - with the buffer kept tight (no spare room
+	// after each step) and with whatever room append leaves
+	rounds := 24
+	if len(enc) > 512 {
+		rounds = 5
+	}
+	for _, tight := range []bool{true, false} {
+		var acc []byte
+		for i := 0; i < rounds; i++ {
+			if tight {
+				acc = acc[:len(acc):len(acc)]
+			}
+			acc = data.AppendEncodeUnixFSData(acc, d)
+			if len(acc) != (i+1)*len(enc) || !bytes.Equal(acc[i*len(enc):], enc) || (i > 0 && !bytes.Equal(acc[:len(enc)], enc)) {
+				return fmt.Errorf("AppendEncodeUnixFSData called %d times on one growing buffer (tight=%v): the buffer holds %d bytes, want %d x %d; last frame %x, first frame %x, expected %x", i+1, tight, len(acc), i+1, len(enc), acc[max(0, len(acc)-len(enc)):], acc[:min(len(acc), len(enc))], enc)
+			}
+		}
+	}
 	// decode(encode(d)) keeps the permission bits
 	d2, err := data.DecodeUnixFSData(enc)
 	if err != nil {
